@@ -36,13 +36,13 @@ def chk(pid, level_text, note, technique, ref):
     }
 claimed = [p for p in ('C08', 'C13', 'C20') if p not in NA]
 TEXT = {
- 'C08': ('Seeded search over histories of expand calls (2-40 ops; shared config dicts, held Config objects, shared caches, a global config; host edits/clones/rebuilds between calls) with faults injected inside calls (malformed input, poisoned snippets, failing editor callback, recursion-limit exhaustion, failure at the n-th library function entry). A deterministic part opens every batch: a systematic sweep of fault placements over 16 call shapes, ~230 scripted host scenarios (incl. every documented option flipped between two configs around a failing call) and an exhaustive placement of the callee failure at EVERY function entry of 8 (quick; 14 280 placements) / 19 (thorough; 190 524 placements) call shapes. Every call is compared with the same call made in a pristine fork of an import-only interpreter (result string or exception, and what the callbacks of the caller were asked on the way); identical calls repeated three times must not grow any emmet.* container, instance count or payload nor leave new library objects alive; 2 300 calls with pairwise distinct inputs (also from a host that builds a fresh config and fresh callbacks per call) must not keep growing module state. Evidence carries a library-reach measure (lines of emmet/ executed by the run children). A clean batch is evidence, not proof; sampling is the right level because the space of histories is unbounded and the oracle is differential.',
+ 'C08': ('Seeded search over histories of expand calls (2-40 ops; shared config dicts, held Config objects, shared caches, a global config; host edits/clones/rebuilds between calls) with faults injected inside calls (the host keeps the exception object of the last failed call; malformed input, poisoned snippets, failing editor callback, recursion-limit exhaustion, failure at the n-th library function entry). A deterministic part opens every batch: a systematic sweep of fault placements over 16 call shapes, ~230 scripted host scenarios (incl. every documented option flipped between two configs around a failing call) and an exhaustive placement of the callee failure at EVERY function entry of 8 (quick; 14 280 placements) / 19 (thorough; 190 524 placements) call shapes. Every call is compared with the same call made in a pristine fork of an import-only interpreter (result string or exception, and what the callbacks of the caller were asked on the way); identical calls repeated three times must not grow any emmet.* container, instance count or payload nor leave new library objects alive; 2 300 calls with pairwise distinct inputs (also from a host that builds a fresh config and fresh callbacks per call) must not keep growing module state. Evidence carries a library-reach measure (lines of emmet/ executed by the run children). A clean batch is evidence, not proof; sampling is the right level because the space of histories is unbounded and the oracle is differential.',
          'Trusts: fork of an import-only zygote == fresh interpreter for everything the property can observe; assumptions A1-A6 in DESIGN.md section 7 (notably A1: one cache is never shared between different snippet tables; A6: no concurrent or re-entrant calls).',
          'deterministic simulation: seeded histories + fault injection, differential oracle against pristine forks, steady-state leak census', '4'),
  'C13': ('Seeded search over histories of 1-6 expand calls whose output.field/output.text callbacks are played by a simulated editor peer (8 answer styles incl. length-changing and empty answers; the peer can fail at its k-th invocation). Every batch opens with a deterministic grid: every (syntax x newline string x baseIndent x indent) cell, 1 512 histories. The peer records every invocation; afterwards placement, line and column of every invocation are checked against the final string (in the property\'s own terms, never via OutputStream internals) and the tabstop indices against the numbering rules (1..n in document order, n taken from the generator\'s explicit tree for the HTML formatter; relative numbering and no collisions for explicit fields). The numbering clause is a function of the abbreviation alone and rides along because the peer witnesses the indices; exploration is the honest level.',
          'Trusts: assumption A2 (peer answers contain no line breaks; texts containing a line break or the configured newline are returned unchanged), output.newline is set in the user layer so the oracle needs no precedence model; the tabstop count model is only applied to a restricted vocabulary (names outside every snippet table, plain empty attributes, no wrap text).',
          'deterministic simulation: simulated editor peer with recorded invocation history and fault injection, history checked against the final string', '5'),
- 'C20': ('Seeded search over histories of a host that reloads its global config between calls, edits its user layer, builds Config objects and calls expand, for all 16 known syntaxes of both types plus unknown names, with malformed input and callee failures in between. After every op the built-in tables are compared with a snapshot taken in the pristine interpreter; around every Config()/expand the caller\'s dicts are compared; every resolved Config is compared with a 10-line layered-merge reference model (built-in layers read from the pristine snapshot); every unfaulted expand is compared with expand on the model\'s flattened config; the host writes into its resolved Config and the tables must stay untouched. Every batch opens with an exhaustive grid (every syntax name x key kind x candidate key x subset of caller-controlled layers) and 86 option-effect witnesses (a value must take effect on the output whichever layer it comes from). The precedence clause is a finite table that enumeration of fresh Configs would settle as well; it is checked here at every step of histories in which earlier calls and settings reloads could have disturbed the tables it reads, which is the part enumeration cannot reach.',
+ 'C20': ('Seeded search over histories of a host that reloads its global config between calls, edits its user layer, builds Config objects and calls expand, for all 16 known syntaxes of both types plus unknown names, with malformed input and callee failures in between. After every op the built-in tables are compared with a snapshot taken in the pristine interpreter; around every Config()/expand the caller\'s dicts are compared; every resolved Config is compared with a 10-line layered-merge reference model (built-in layers read from the pristine snapshot); every unfaulted expand is compared with expand on the model\'s flattened config; the host writes into its resolved Config and the tables must stay untouched. Every batch opens with an exhaustive grid (every syntax name x key kind x candidate key x subset of caller-controlled layers) and 86 option-effect witnesses (a value must take effect on the output whichever layer it comes from) and 5 callback-option histories (the output.field/output.text callables of the most specific defining layer must be the objects that are consulted). The precedence clause is a finite table that enumeration of fresh Configs would settle as well; it is checked here at every step of histories in which earlier calls and settings reloads could have disturbed the tables it reads, which is the part enumeration cannot reach.',
          'Trusts: the reference model encodes the documented order (defaults < type defaults < syntax defaults < global type < global syntax < user); option values have their documented types (A4); the top-level `text` key written by markup.parse() is not counted as a modification by merging.',
          'deterministic simulation: settings-reload histories with fault injection, per-step snapshot invariants and a layered-merge reference model', '6'),
 }
